@@ -42,3 +42,17 @@ def amb(a, b):
 ONE = {'mul2': (mul2, div2), 'add3': (add3, sub3), 'mul4': (mul4, div4), 'neg': (neg, neg),
        'div2': (div2, mul2), 'sub3': (sub3, add3)}
 TWO = {'sum2': sum2, 'amb': amb}
+
+
+def _namesake(name, k):
+    """A function that carries the qualified name of one of the functions above without being it (a closure from a factory,
+    or a function that was redefined after it was used): a session that uses it cannot name it faithfully."""
+    def f(x):
+        return x * k + 1
+    f.__name__ = name
+    f.__qualname__ = name
+    f.__module__ = __name__
+    return f
+
+
+NAMESAKES = {'mul2': _namesake('mul2', 5.0), 'add3': _namesake('add3', 7.0)}
